@@ -406,6 +406,17 @@ def main(argv):
     if repo not in sys.path:
         sys.path.insert(0, repo)
     case = json.loads(argv[1])
+    if case.get('kind') == 'soc2':
+        fd = os.dup(1)                       # ECOS prints from C: keep fd 1 quiet while solving
+        nul = os.open(os.devnull, os.O_WRONLY)
+        os.dup2(nul, 1)
+        try:
+            out = soc2_solo(case['model'], case['args'])
+        finally:
+            sys.stdout.flush()
+            os.dup2(fd, 1)
+        print('DIGEST ' + json.dumps(out, sort_keys=True))
+        return
     out = digests(case['gen'], case.get('which'), case.get('variant', 'f64'))
     out['hashseed'] = os.environ.get('PYTHONHASHSEED')
     print('DIGEST ' + json.dumps(out, sort_keys=True))
@@ -620,3 +631,264 @@ def incr_model(flavour):
 
 
 INCR_EXP_DECL = {'gcp': (1, 5)}      # positions of the declarations that use an exponential-cone atom
+
+
+# ------------------------------------------------------------------------------------------------
+# 'rhs' family: a constraint  k * atom(x) <= b  (convex atoms) /  k * atom(x) >= b  (concave atoms) with a constant
+# ARRAY / scalar / affine right-hand side and a multiplier k, in an ro.Model / directly used gcp.Model / dro.Model;
+# the model is formulated, a REDUNDANT declaration is added, it is formulated again (once or twice).
+# `rhs_build(spec, final)` declares everything in one go (the fresh reference), `rhs_apply(h, r)` declares the
+# redundant thing r on a live model.  The optimum of the element-wise atoms is known in closed form.
+# ------------------------------------------------------------------------------------------------
+_RHS_Q = [[2.0, 0.5], [0.5, 1.0]]
+# atom -> (convex?, element-wise?, target t (the constraint means atom(x) <=/>= t), class)
+RHS_ATOMS = {
+    'exp': (True, True, [3.0, 5.0], 'exp'),
+    'softplus': (True, True, [1.0, 1.5], 'exp'),
+    'pexp': (True, True, [3.0, 5.0], 'exp'),
+    'log': (False, True, [0.5, 1.0], 'exp'),
+    'plog': (False, True, [0.5, 1.0], 'exp'),
+    'expsum': (True, False, [3.0, 5.0], 'exp'),
+    'logsum': (False, False, [0.5, 1.0], 'exp'),
+    'entropy': (False, False, [0.5], 'exp'),
+    'pnorm': (True, False, [1.5], 'exp'),
+    'abs': (True, True, [1.0, 1.5], 'lp'),
+    'norm1': (True, False, [1.5], 'lp'),
+    'norminf': (True, False, [1.5], 'lp'),
+    'square': (True, True, [1.0, 2.25], 'soc'),
+    'power': (True, True, [1.0, 3.375], 'soc'),
+    'norm': (True, False, [1.5], 'soc'),
+    'sumsqr': (True, False, [2.25], 'soc'),
+    'quad': (True, False, [2.25], 'soc'),
+}
+RHS_FORMS = ('L', 'R', 'G', 'N')          # k*f <= b | f*k <= b | b >= k*f | -k*f >= -b   (mirrored for concave atoms)
+RHS_KINDS = ('arr', 'sc', 'aff', 'mix')   # constant ndarray | python float | b + variable | constant array + 0*x
+RHS_HOSTS = ('ro', 'gcp', 'dro')
+RHS_REDUNDANT = ('bound', 'row')
+
+
+def rhs_closed_form(atom, kind):
+    """Optimum of the rhs model in closed form (None: not available, only the differential oracle applies).
+    The objective is sum(x) + 0.25 * sum(X) with X in [-2, 2]^(2x2) free of the element-wise atoms: +-2."""
+    v = _rhs_closed_form(atom, kind)
+    if v is None:
+        return None
+    return v + (2.0 if RHS_ATOMS[atom][0] else -2.0)
+
+
+def _rhs_closed_form(atom, kind):
+    convex, elementwise, t, _ = RHS_ATOMS[atom]
+    t = np.array(t, dtype=float)
+    if kind == 'sc':
+        t = np.array([t[0], t[0]])
+    if atom == 'exp':
+        return float(np.log(t).sum())
+    if atom == 'softplus':
+        return float(np.log(np.exp(t) - 1).sum())
+    if atom == 'pexp':
+        return float((2 * np.log(t / 2)).sum())
+    if atom == 'log':
+        return float(np.exp(t).sum())
+    if atom == 'plog':
+        return float((2 * np.exp(t / 2)).sum())
+    if atom == 'abs':
+        return float(t.sum())
+    if atom == 'square':
+        return float(np.sqrt(t).sum())
+    if atom == 'power':
+        return float(np.cbrt(t).sum())
+    return None
+
+
+def _rhs_atom(rso, atom, x, X):
+    if atom == 'exp':
+        return rso.exp(x)
+    if atom == 'softplus':
+        return rso.softplus(x)
+    if atom == 'pexp':
+        return rso.pexp(x, 2.0)
+    if atom == 'log':
+        return rso.log(x)
+    if atom == 'plog':
+        return rso.plog(x, 2.0)
+    if atom == 'expsum':
+        return rso.exp(X).sum(axis=0)
+    if atom == 'logsum':
+        return rso.log(X).sum(axis=0)
+    if atom == 'entropy':
+        return rso.entropy(x)
+    if atom == 'pnorm':
+        return rso.pnorm(x, 3)
+    if atom == 'abs':
+        return abs(x)
+    if atom == 'norm1':
+        return rso.norm(x, 1)
+    if atom == 'norminf':
+        return rso.norm(x, 'inf')
+    if atom == 'square':
+        return rso.square(x)
+    if atom == 'power':
+        return rso.power(x, 3)
+    if atom == 'norm':
+        return rso.norm(x)
+    if atom == 'sumsqr':
+        return rso.sumsqr(x)
+    if atom == 'quad':
+        return rso.quad(x, np.array(_RHS_Q))
+    raise ValueError(atom)
+
+
+def rhs_apply(h, r):
+    m, x = h['m'], h['x']
+    if r == 'bound':
+        m.st(x <= 9.75)          # looser than the declared x <= 9.5: redundant for every atom
+    elif r == 'row':
+        m.st(x[0] + x[1] + h['X'].sum() <= 60)
+    else:
+        raise ValueError(r)
+
+
+def rhs_build(spec, final=()):
+    """-> (model, handles).  handles['b'] is the user's right-hand side array (None for the scalar kind)."""
+    rs = _rs()
+    rso = rs['rso']
+    host, atom, k, form, kind = spec['host'], spec['atom'], float(spec['k']), spec['form'], spec['kind']
+    convex, elementwise, t, _ = RHS_ATOMS[atom]
+    if host == 'ro':
+        m = rs['ro'].Model()
+    elif host == 'gcp':
+        import rsome.gcp as gcpm
+        m = gcpm.Model()
+    else:
+        m = rs['dro'].Model(1)
+    x = m.dvar(2)
+    X = m.dvar((2, 2))
+    y = m.dvar(len(t))
+    lo = 0.0625 if atom == 'entropy' else -9.5
+    if convex or atom == 'entropy':
+        obj = x.sum() + 0.25 * X.sum() if atom != 'entropy' else -1.0 * x[0] - 0.5 * x[1] - 0.25 * X.sum()
+        if atom == 'entropy':
+            m.min(obj)
+        else:
+            m.max(obj)
+    else:
+        m.min(x.sum() + 0.25 * X.sum())
+    for c0 in (x >= lo, x <= 9.5, X >= -2, X <= 2, y == 0):
+        m.st(c0)
+    f = _rhs_atom(rso, atom, x, X)
+    bval = k * np.array(t, dtype=float)
+    user = None
+    if kind == 'arr':
+        user = bval.copy()
+        b = user
+    elif kind == 'sc':
+        b = float(bval[0])
+    elif kind == 'aff':
+        user = bval.copy()
+        b = user + y
+    elif kind == 'mix':
+        user = bval.copy()
+        b = user + 0.0 * y
+    else:
+        raise ValueError(kind)
+    nb = -1 * b
+    if convex:
+        c = {'L': lambda: k * f <= b, 'R': lambda: f * k <= b, 'G': lambda: b >= k * f,
+             'N': lambda: (-k) * f >= nb}[form]()
+    else:
+        c = {'L': lambda: k * f >= b, 'R': lambda: f * k >= b, 'G': lambda: b <= k * f,
+             'N': lambda: (-k) * f <= nb}[form]()
+    m.st(c)
+    h = {'m': m, 'x': x, 'X': X, 'y': y, 'b': user, 'c': c}
+    for r in final:
+        rhs_apply(h, r)
+    return m, h
+
+
+# ------------------------------------------------------------------------------------------------
+# 'soc2' family: process-history independence of GCProg.to_socp / soc_solve.  Small models with exponential cones;
+# a call is (api, args) with api 'T' = model.do_math().to_socp(*args) and 'Q' = model.soc_solve(eco, *args).
+# `soc2_solo(model, args)` is what a FRESH process prints (one call, nothing before it).
+# ------------------------------------------------------------------------------------------------
+SOC2_MODELS = ('ro_p', 'gcp_q', 'ro_k', 'ro_set', 'dro_p')
+SOC2_ARGS = ([], [6], [4, [-30, 60]], [4, [-1, 0.5]], [6, [-1, 0.5]], [6, [-7, 13]], [4, [-7, 13]], [4], [6, [-30, 60]])
+
+
+def soc2_model(name):
+    rs = _rs()
+    rso = rs['rso']
+    if name == 'ro_p':          # max x : exp(x) <= 10   (ln 10)
+        m = rs['ro'].Model()
+        x = m.dvar()
+        m.max(x)
+        m.st(rso.exp(x) <= 10, x <= 5)
+    elif name == 'gcp_q':       # min exp(y) + exp(-2y) + ...  on a directly used gcp.Model
+        import rsome.gcp as gcpm
+        m = gcpm.Model()
+        y = m.dvar()
+        t = m.dvar(2)
+        m.min(t.sum())
+        m.st([rso.exp(y) <= t[0], rso.exp(0.25 - 2 * y) <= t[1], y >= -0.75, y <= 0.75])
+    elif name == 'ro_k':        # entropy / kl-divergence / log atoms, several cones
+        m = rs['ro'].Model()
+        p = m.dvar(2)
+        x = m.dvar(2)
+        m.min(np.array([1.0, 2.0]) @ p + x.sum())
+        m.st(rso.kldiv(p, np.array([0.75, 0.25]), 0.125), p.sum() == 1, p >= 0)
+        m.st(2 * rso.log(x) >= np.array([1.0, 2.0]), x <= 9)
+    elif name == 'ro_set':      # exponential cone inside the uncertainty set
+        m = rs['ro'].Model()
+        x = m.dvar(2)
+        z = m.rvar(2)
+        zs = (rso.exp(z[0]) <= 2 + z[1], z >= -1, z <= 1)
+        m.minmax(np.array([1.0, 0.75]) @ x + 0.25 * (z[0] * x[1]), zs)
+        m.st((np.array([1.0, 1.0]) + np.array([[0.5, 0], [0, -0.25]]) @ z) @ x >= 1.5)
+        m.st(x >= 0, x <= 4)
+    elif name == 'dro_p':
+        E = rs['E']
+        m = rs['dro'].Model(2)
+        z = m.rvar()
+        fset = m.ambiguity()
+        fset[0].suppset(z >= -1, z <= 0.5)
+        fset[1].suppset(z >= 0, z <= 1)
+        fset.exptset(E(z) <= 0.5, E(z) >= -0.25)
+        fset.probset(m.p == 0.5)
+        x = m.dvar()
+        m.maxinf(E(x + 0.5 * z * x), fset)
+        m.st(rso.exp(x) <= 10, x <= 5)
+    else:
+        raise ValueError(name)
+    return m
+
+
+def soc2_args(args):
+    a = list(args)
+    if len(a) == 2:
+        a[1] = tuple(a[1])
+    return a
+
+
+def soc2_call(m, api, args):
+    """-> ('T', digest) or ('Q', (status, objective or None))."""
+    from . import c08c18c19_common as cm
+    rs = _rs()
+    a = soc2_args(args)
+    if api == 'T':
+        return cm.snap_digest(cm.snapshot(m.do_math().to_socp(*a)))
+    kw = {}
+    if len(a) >= 1:
+        kw['degree'] = a[0]
+    if len(a) >= 2:
+        kw['cuts'] = a[1]
+    m.soc_solve(rs['eco'], display=False, **kw)
+    sol = m.solution
+    if sol is None or sol.x is None or not str(sol.status).startswith('Optimal'):
+        return None
+    v = float(m.get())
+    return None if np.isnan(v) else v
+
+
+def soc2_solo(model, args):
+    out = {'T': soc2_call(soc2_model(model), 'T', args)}
+    out['Q'] = soc2_call(soc2_model(model), 'Q', args)
+    return out
